@@ -1,6 +1,7 @@
 package main
 
 import (
+	"golang.org/x/tools/go/ssa"
 	"fmt"
 	"go/constant"
 	"go/types"
@@ -435,6 +436,25 @@ func (env *SpecEnv) call(n *ECall) SVal {
 				return SVal{V: v, T: lf.namedT[id.Name]}
 			}
 			unsupp("local variable %s is not live here", id.Name)
+		}
+		if c, ok := lf.named["&"+id.Name]; ok {
+			// escaping local: the cell holds the object reference; the value is the pointee
+			if v, live := env.st().cells[c]; live {
+				pt := lf.namedT["&"+id.Name]
+				if isBigInt(pt.(*types.Pointer).Elem()) {
+					return SVal{V: scalar(v.T), T: pt}
+				}
+				return SVal{V: env.st().load(derefPlace(v.T, pt)), T: pt.(*types.Pointer).Elem()}
+			}
+		}
+		// declared later on other paths: an arbitrary value of its type on this one
+		for _, b := range lf.fn.Blocks {
+			for _, ins := range b.Instrs {
+				if a, ok := ins.(*ssa.Alloc); ok && a.Comment == id.Name {
+					el := a.Type().(*types.Pointer).Elem()
+					return SVal{V: env.st().freshVal("undeclared_"+id.Name, el), T: el}
+				}
+			}
 		}
 		unsupp("no local variable %s", id.Name)
 	case "old":
